@@ -5,6 +5,7 @@ import json, os, sys, re
 V = os.path.dirname(os.path.dirname(os.path.abspath(__file__)))
 sys.path.insert(0, os.path.join(V, 'harness'))
 from claims import CLAIMED, TB
+from claims_s3 import S3
 rows = ['| id | theorems (audited) | quick: cases / wall | Lean files (model, lemmas, generated) | partial / not proved (decided per run only) |', '|---|---|---|---|---|']
 for i in sorted(CLAIMED):
     try:
@@ -14,7 +15,7 @@ for i in sorted(CLAIMED):
         continue
     c = e['coverage']
     files = [f.split('/')[-1] for f in c.get('lean_files', []) if '/Props/' not in f and '/Audit/' not in f]
-    note = CLAIMED[i][2].replace(TB, '').strip()
+    note = (CLAIMED[i][2].replace(TB, '').strip() + ' ' + S3.get(i, '')).strip()
     kf = c.get('known_findings_reproduced') or []
     if kf:
         note += ' KNOWN-FINDING reproduced: ' + '; '.join(sorted({(k if isinstance(k, str) else k.get('key', '?')) for k in kf}))[:200]
